@@ -114,3 +114,20 @@ CLAIMS["C09"] = {
     "note": "Assumes unique unit ids and non-NaN compared values. The outlier model's own statistics are opaque (only that it "
             "returns a row subset of its input and is gated by its switch is decided).",
 }
+
+CLAIMS["C01"] = {
+    "technique": "row-set truth table for the unit split + frame algebra (provenance of pandas pipelines over def-use terms, helpers "
+                 "inlined) normalised to signed sums of per-group sums + indicator-matrix row bookkeeping for the bootstrap model + "
+                 "constant folding of get_aggregate_list over the office/aggregate tables",
+    "level": "Decides for every feed / group structure / request: (a) exhaustive truth table - each unit of feed or baseline join is a "
+             "row of exactly one frame; (b) the unit table is the unfiltered concat of those frames; (c) at every level and for every "
+             "estimator results_e and reporting are S_R + S_U + S_N of the same column per group of the aggregate keys (no U at "
+             "classification level, by design), all joins outer and every possibly-missing operand filled with 0 before adding - so "
+             "groups existing only through unexpected or only through nonreporting units keep their votes; (d) bootstrap: "
+             "results_margin numerator and the turnout divisor are the documented group sums and the divisor is the reported "
+             "pred_turnout; (e) merge keys cover every shared column in all office-class x aggregate configurations; (f) every "
+             "key used to group unexpected units is recovered, for every office class and every requested aggregate list.",
+    "note": "Trusted: pandas semantics summarised in DESIGN.md section 7; unique unit ids; non-NaN keys of baseline units. The "
+            "summary of groupby/merge/fillna/assign is specific to the idioms used in this repository; other idioms stop the check "
+            "with ANALYSIS-ERROR rather than being guessed.",
+}
